@@ -90,6 +90,7 @@ type input struct {
 	Groups   int        `json:"groups"`
 	Delays   [][]int    `json:"delays"` // per backend: microseconds per SendEvent call, cyclic
 	Compress string     `json:"compress"`
+	Fails    [][]int    `json:"fails"`     // per backend, cyclic per SendEvent call: 0 = nil, 1 = an error, 2 = context.Canceled, 3 = context.DeadlineExceeded
 	TapDelay []int      `json:"tap_delay"` // microseconds the pass-through handler takes per event, cyclic
 	Cancel   int        `json:"cancel"`    // > 0: cancel the dispatch contexts after that many microseconds
 }
@@ -207,8 +208,11 @@ type shared struct {
 	rets     int64
 }
 
+var errSend = fmt.Errorf("scripted backend failure")
+
 type capBackend struct {
 	idx    int
+	fails  []int
 	delays []int
 	sh     *shared
 	mu     sync.Mutex
@@ -247,6 +251,17 @@ func (b *capBackend) SendEvent(ctx context.Context, e *gostatsd.Event) error {
 	atomic.AddInt64(&b.sh.inflight, -1)
 	atomic.AddInt64(&b.sh.rets, 1)
 	b.sh.log.add(obs{K: "ret", E: id, B: b.idx})
+	// the event has been handed to this backend exactly once, whatever the send reports
+	if len(b.fails) > 0 {
+		switch b.fails[k%len(b.fails)] {
+		case 1:
+			return errSend
+		case 2:
+			return context.Canceled
+		case 3:
+			return context.DeadlineExceeded
+		}
+	}
 	return nil
 }
 
@@ -372,6 +387,13 @@ func coqEvent(e *gostatsd.Event) string {
 		hlib.Bytes(e.SourceTypeName), hlib.StrList(e.Tags), hlib.Bytes(string(e.Source)), hlib.Z(int64(e.Priority)), hlib.Z(int64(e.AlertType)))
 }
 
+// hang detection: the first wait of a case that does not come back gets hangAfter, every later
+// wait of the same case only a moment (nothing will move any more); a generation run stops after
+// a few hung cases (each leaks blocked goroutines)
+const hangAfter = 4 * time.Second
+
+var hungCases = 0
+
 func waitTimeout(f func(), d time.Duration) bool {
 	done := make(chan struct{})
 	go func() { f(); close(done) }()
@@ -413,6 +435,22 @@ func runCase1(in input) (hlib.Case, *hlib.Case) {
 			monitors = append(monitors, fmt.Sprintf(f, a...))
 		}
 	}
+	hung := false
+	patience := func() time.Duration {
+		if hung {
+			return 200 * time.Millisecond
+		}
+		return hangAfter
+	}
+	wt := func(f func()) bool {
+		ok := waitTimeout(f, patience())
+		if !ok && !hung {
+			hung = true
+			hungCases++
+			mon("a wait did not come back: max-concurrent-events %d, backend failure scripts %v, backend delays %v", in.Cap, in.Fails, in.Delays)
+		}
+		return ok
+	}
 	ctx, cancel := context.WithCancel(context.Background())
 	defer cancel()
 	dctx, dcancel := context.WithCancel(ctx) // the context the parsers dispatch with
@@ -427,7 +465,11 @@ func runCase1(in input) (hlib.Case, *hlib.Case) {
 		if i < len(in.Delays) {
 			d = in.Delays[i]
 		}
-		caps[i] = &capBackend{idx: i, delays: d, sh: sh}
+		var f []int
+		if i < len(in.Fails) {
+			f = in.Fails[i]
+		}
+		caps[i] = &capBackend{idx: i, delays: d, fails: f, sh: sh}
 		backends[i] = caps[i]
 	}
 	af := statsd.AggregatorFactoryFunc(func() statsd.Aggregator {
@@ -520,8 +562,8 @@ func runCase1(in input) (hlib.Case, *hlib.Case) {
 				}
 			}(g)
 		}
-		if !waitTimeout(swg.Wait, 8*time.Second) {
-			mon("posting the messages did not finish within 8s")
+		if !wt(swg.Wait) {
+			mon("posting the messages did not finish within 4s")
 		}
 	} else {
 		inCh := make(chan []*statsd.Datagram)
@@ -600,8 +642,8 @@ func runCase1(in input) (hlib.Case, *hlib.Case) {
 				}
 			}(g)
 		}
-		if !waitTimeout(func() { swg.Wait(); done.Wait() }, 8*time.Second) {
-			mon("the parsers did not take / finish every datagram within 8s")
+		if !wt(func() { swg.Wait(); done.Wait() }) {
+			mon("the parsers did not take / finish every datagram within 4s")
 		}
 	}
 
@@ -610,19 +652,19 @@ func runCase1(in input) (hlib.Case, *hlib.Case) {
 	enteredAtWait := int64(-1)
 	if in.Mode == "forwarded" {
 		// first the forwarder: every accepted event must have been posted (entered the ingesting server)
-		if !waitTimeout(head.WaitForEvents, 8*time.Second) {
-			mon("the forwarder's WaitForEvents did not return within 8s")
+		if !wt(head.WaitForEvents) {
+			mon("the forwarder's WaitForEvents did not return within 4s")
 		}
 		enteredAtWait = atomic.LoadInt64(&tp.entered)
 		if in.Cancel == 0 && enteredAtWait != int64(nAccepted) {
 			mon("the forwarder's WaitForEvents returned when %d of %d accepted events had reached the ingesting server", enteredAtWait, nAccepted)
 		}
 		log.add(obs{K: "waitcall"})
-		ok := waitTimeout(tp.WaitForEvents, 8*time.Second)
+		ok := wt(tp.WaitForEvents)
 		retsAtWait = atomic.LoadInt64(&sh.rets)
 		log.add(obs{K: "waitret"})
 		if !ok {
-			mon("the ingesting server's WaitForEvents did not return within 8s")
+			mon("the ingesting server's WaitForEvents did not return within 4s")
 		}
 	} else {
 		var h gostatsd.PipelineHandler = head
@@ -630,11 +672,11 @@ func runCase1(in input) (hlib.Case, *hlib.Case) {
 			h = tp
 		}
 		log.add(obs{K: "waitcall"})
-		ok := waitTimeout(h.WaitForEvents, 8*time.Second)
+		ok := wt(h.WaitForEvents)
 		retsAtWait = atomic.LoadInt64(&sh.rets)
 		log.add(obs{K: "waitret"})
 		if !ok {
-			mon("WaitForEvents did not return within 8s")
+			mon("WaitForEvents did not return within 4s")
 		}
 	}
 	thi := time.Now().Unix()
@@ -651,9 +693,9 @@ func runCase1(in input) (hlib.Case, *hlib.Case) {
 		mon("%d SendEvent calls were in progress at once, max-concurrent-events is %d", m, in.Cap)
 	}
 	cancel()
-	waitTimeout(bg.Wait, 5*time.Second)
+	waitTimeout(bg.Wait, 2*time.Second)
 	if ca != nil {
-		waitTimeout(ca.wg.Wait, 5*time.Second)
+		waitTimeout(ca.wg.Wait, 2*time.Second)
 	}
 
 	// ---- per backend: no event twice, none missing (by content, independent of the model)
@@ -909,6 +951,14 @@ func genCase(r *hlib.Rand, k int) input {
 	in.Static = pickTags(r, 0, 3)
 	in.StaticS = pickTags(r, 0, 3)
 	in.Delays = genDelays(r, in.NB)
+	if r.Chance(3, 5) { // failing sends: more failures than tokens within a run
+		in.Fails = make([][]int, in.NB)
+		for b := range in.Fails {
+			for i, n := 0, r.Range(1, 4); i < n; i++ {
+				in.Fails[b] = append(in.Fails[b], hlib.Pick(r, []int{0, 1, 1, 1, 2, 3}))
+			}
+		}
+	}
 	in.Compress = hlib.Pick(r, []string{"", "zlib", "lz4", "none"})
 	if r.Chance(1, 2) {
 		for i, n := 0, r.Range(1, 3); i < n; i++ {
@@ -987,7 +1037,7 @@ func main() {
 	case "gen":
 		r := hlib.NewRand(a.Seed)
 		nonUTF8Stream = findingListed()
-		for i := 0; i < a.N; i++ {
+		for i := 0; i < a.N && hungCases < 3; i++ {
 			for _, c := range runCase(genCase(r.Fork(), i)) {
 				em.Emit(c)
 			}
